@@ -204,24 +204,38 @@ func ruleDirtyFlag(c *Ctx) {
 	}
 	info := pk.TypesInfo
 	grow, readers := 0, 0
-	c.P.funcDecls(func(p *packages.Package, fd *ast.FuncDecl) {
-		if p != pk || fd.Body == nil || recvTypeName(fd) != "ProtoArray" || len(fd.Recv.List[0].Names) != 1 {
-			return
-		}
+	// unexported methods that append and leave marking the links stale to their callers: a call of one is an append
+	// in the caller (found by iterating to a fixed point)
+	leaky := map[*types.Func]bool{}
+	type appendSite struct {
+		n    ast.Node
+		leak ast.Node // last node of an exit reached without the mark, nil when every path marks
+		via  string
+	}
+	analyse := func(fd *ast.FuncDecl) []appendSite {
 		recv := info.Defs[fd.Recv.List[0].Names[0]]
-		fname := "proto." + funcName(fd)
 		g := cfg.New(fd.Body, func(*ast.CallExpr) bool { return true })
-		isAppend := func(n ast.Node) bool {
-			as, ok := n.(*ast.AssignStmt)
-			if !ok || len(as.Lhs) != 1 || len(as.Rhs) != 1 || !isRecvField(info, as.Lhs[0], recv, "nodes") {
-				return false
+		appendVia := func(n ast.Node) (bool, string) {
+			if as, ok := n.(*ast.AssignStmt); ok && len(as.Lhs) == 1 && len(as.Rhs) == 1 && isRecvField(info, as.Lhs[0], recv, "nodes") {
+				if call, ok := ast.Unparen(as.Rhs[0]).(*ast.CallExpr); ok {
+					if id, ok := call.Fun.(*ast.Ident); ok && id.Name == "append" {
+						return true, ""
+					}
+				}
 			}
-			call, ok := ast.Unparen(as.Rhs[0]).(*ast.CallExpr)
-			if !ok {
-				return false
-			}
-			id, ok := call.Fun.(*ast.Ident)
-			return ok && id.Name == "append"
+			via := ""
+			ast.Inspect(n, func(k ast.Node) bool {
+				if _, isLit := k.(*ast.FuncLit); isLit {
+					return false
+				}
+				if call, ok := k.(*ast.CallExpr); ok {
+					if f := calleeFunc(info, call); f != nil && leaky[f] {
+						via = f.Name()
+					}
+				}
+				return via == ""
+			})
+			return via != "", via
 		}
 		isClear := func(n ast.Node) bool {
 			as, ok := n.(*ast.AssignStmt)
@@ -231,66 +245,120 @@ func ruleDirtyFlag(c *Ctx) {
 			id, ok := ast.Unparen(as.Rhs[0]).(*ast.Ident)
 			return ok && id.Name == "false"
 		}
-		k := 0
+		var out []appendSite
 		for _, b := range g.Blocks {
 			if !b.Live {
 				continue
 			}
 			for i, n := range b.Nodes {
-				if !isAppend(n) {
+				isApp, via := appendVia(n)
+				if !isApp {
 					continue
 				}
-				grow++
-				k++
-				key := fmt.Sprintf("%s@append%d", fname, k)
-				// cleared later in the same block?
+				site := appendSite{n: n, via: via}
 				cleared := false
 				for _, m := range b.Nodes[i+1:] {
 					if isClear(m) {
 						cleared = true
 					}
 				}
-				if cleared {
-					c.ok(key, n.Pos(), "links marked stale right after the append")
-					continue
-				}
-				// every path from here to an exit must meet a clearing block
-				seen := map[*cfg.Block]bool{}
-				var leak *cfg.Block
-				var walk func(x *cfg.Block)
-				walk = func(x *cfg.Block) {
-					if seen[x] || leak != nil {
-						return
-					}
-					seen[x] = true
-					for _, m := range x.Nodes {
-						if isClear(m) {
+				if !cleared {
+					// every path from here to an exit must meet a clearing block
+					seen := map[*cfg.Block]bool{}
+					var leak *cfg.Block
+					var walk func(x *cfg.Block)
+					walk = func(x *cfg.Block) {
+						if seen[x] || leak != nil {
 							return
 						}
+						seen[x] = true
+						for _, m := range x.Nodes {
+							if isClear(m) {
+								return
+							}
+						}
+						if len(x.Succs) == 0 {
+							leak = x
+							return
+						}
+						for _, s := range x.Succs {
+							walk(s)
+						}
 					}
-					if len(x.Succs) == 0 {
-						leak = x
-						return
-					}
-					for _, s := range x.Succs {
+					for _, s := range b.Succs {
 						walk(s)
 					}
-				}
-				for _, s := range b.Succs {
-					walk(s)
-				}
-				if len(b.Succs) == 0 {
-					leak = b
-				}
-				if leak != nil {
-					pos := n.Pos()
-					if len(leak.Nodes) > 0 {
-						pos = leak.Nodes[len(leak.Nodes)-1].Pos()
+					if len(b.Succs) == 0 {
+						leak = b
 					}
-					c.bad(key, pos, "%s appends a node and can return without `updatedConnections = false`: the new node stays invisible to FindHead / CanonicalChain / InSubtree until another insertion or score update refreshes the links", fname)
-				} else {
-					c.ok(key, n.Pos(), "every path after the append marks the links stale")
+					if leak != nil {
+						site.leak = n
+						if len(leak.Nodes) > 0 {
+							site.leak = leak.Nodes[len(leak.Nodes)-1]
+						}
+					}
 				}
+				out = append(out, site)
+			}
+		}
+		return out
+	}
+	var methods []*ast.FuncDecl
+	c.P.funcDecls(func(p *packages.Package, fd *ast.FuncDecl) {
+		if p == pk && fd.Body != nil && recvTypeName(fd) == "ProtoArray" && len(fd.Recv.List[0].Names) == 1 {
+			methods = append(methods, fd)
+		}
+	})
+	called := map[*types.Func]bool{}
+	for _, fd := range methods {
+		ast.Inspect(fd.Body, func(k ast.Node) bool {
+			if call, ok := k.(*ast.CallExpr); ok {
+				if f := calleeFunc(info, call); f != nil {
+					called[f] = true
+				}
+			}
+			return true
+		})
+	}
+	for round := 0; round < 4; round++ {
+		changed := false
+		for _, fd := range methods {
+			f, _ := info.Defs[fd.Name].(*types.Func)
+			if f == nil || f.Exported() || !called[f] || leaky[f] {
+				continue
+			}
+			for _, st := range analyse(fd) {
+				if st.leak != nil {
+					leaky[f] = true
+					changed = true
+				}
+			}
+		}
+		if !changed {
+			break
+		}
+	}
+	c.P.funcDecls(func(p *packages.Package, fd *ast.FuncDecl) {
+		if p != pk || fd.Body == nil || recvTypeName(fd) != "ProtoArray" || len(fd.Recv.List[0].Names) != 1 {
+			return
+		}
+		recv := info.Defs[fd.Recv.List[0].Names[0]]
+		fname := "proto." + funcName(fd)
+		self, _ := info.Defs[fd.Name].(*types.Func)
+		for k, st := range analyse(fd) {
+			grow++
+			key := fmt.Sprintf("%s@append%d", fname, k+1)
+			what := "appends a node"
+			if st.via != "" {
+				what = "appends a node (through " + st.via + ")"
+			}
+			switch {
+			case st.leak == nil:
+				c.ok(key, st.n.Pos(), "every path after the append marks the links stale")
+			case self != nil && leaky[self]:
+				c.ok(key, st.n.Pos(), "unexported helper: marking the links stale is left to its callers, each of which is checked with the call as the append")
+			default:
+				c.bad(key, st.leak.Pos(), "%s %s and can return without `updatedConnections = false`: the new node stays invisible to FindHead / CanonicalChain / InSubtree until another insertion or score update refreshes the links", fname, what)
 			}
 		}
 		// readers of the links
